@@ -126,6 +126,10 @@ def same(f, r, m):
 
 # ----------------------------------------------------------------------------- the implementation side
 
+class MyH(xgi.Hypergraph):
+    """a trivial subclass: a hypergraph in the sense of the quantifier"""
+
+
 def build_case(c):
     """the real network of a request: an xgi.Hypergraph (key "net"; empty hyperedges made by add_edge([]) or, with
     "empty_via": "remove", by add_edge([x]) + remove_node_from_edge(e, x, remove_empty=False)) or an
@@ -140,7 +144,16 @@ def build_case(c):
         return nodes, edges, D
     nodes = [dec_id(x) for x in c["net"]["nodes"]]
     edges = [(dec_id(e), [dec_id(x) for x in ms]) for e, ms in c["net"]["edges"]]
-    H = xgi.Hypergraph()
+    if c.get("cls") == "SimplicialComplex":
+        # the listed "edges" are the simplices handed to add_simplex (their IDs are not used: a complex names its own
+        # faces); the network the predicate judges is the instance's OWN node list and edges.members()
+        S = xgi.SimplicialComplex()
+        S.add_nodes_from(nodes)
+        for _, ms in edges:
+            if ms:
+                S.add_simplex(ms)
+        return list(S.nodes), [(e, list(S.edges.members(e))) for e in S.edges], S
+    H = MyH() if c.get("cls") == "MyH" else xgi.Hypergraph()
     H.add_nodes_from(nodes)
     for e, ms in edges:
         if not ms and nodes and c.get("empty_via") == "remove":
@@ -745,8 +758,14 @@ def python_replay(c):
         return (f"nodes={[dec_id(x) for x in c['dinet']['nodes']]!r}; "
                 f"edges={[(dec_id(e), [dec_id(x) for x in t], [dec_id(x) for x in h]) for e, t, h in c['dinet']['edges']]!r}; "
                 f"D=xgi.DiHypergraph(); D.add_nodes_from(nodes); [D.add_edge((t, h), idx=e) for e, t, h in edges]; {SITE[c['f']]}(D, {args})")
+    args = {k: v for k, v in args.items() if k not in ("cls", "large", "predicate_only")}
+    if len(c["net"]["nodes"]) > 2 * MAX_NODES or len(c["net"]["edges"]) > 2 * MAX_EDGES:
+        return f"./check C14 --replay <this file>   # large network: {len(c['net']['nodes'])} nodes / {len(c['net']['edges'])} edges; {SITE[c['f']]}(H, {args})"
+    if c.get("cls") == "SimplicialComplex":
+        return (f"nodes={[dec_id(x) for x in c['net']['nodes']]!r}; simplices={[[dec_id(x) for x in ms] for e, ms in c['net']['edges'] if ms]!r}; "
+                f"S=xgi.SimplicialComplex(); S.add_nodes_from(nodes); [S.add_simplex(m) for m in simplices]; {SITE[c['f']]}(S, {args})")
     return (f"nodes={[dec_id(x) for x in c['net']['nodes']]!r}; edges={[(dec_id(e), [dec_id(x) for x in ms]) for e, ms in c['net']['edges']]!r}; "
-            f"H=xgi.Hypergraph(); H.add_nodes_from(nodes); [H.add_edge(m, idx=e) for e, m in edges]; {SITE[c['f']]}(H, {args})")
+            f"H={'MyH' if c.get('cls') == 'MyH' else 'xgi.Hypergraph'}(); H.add_nodes_from(nodes); [H.add_edge(m, idx=e) for e, m in edges]; {SITE[c['f']]}(H, {args})")
 
 
 def check_size(c):
@@ -755,12 +774,17 @@ def check_size(c):
         raise Infra(f"C14 case larger than the size guard ({MAX_NODES} nodes / {MAX_EDGES} edges): not sent to the model driver")
 
 
-def run_batch(ctx, cases, shrink=True):
-    """implementation + predicate on every case, then the model; returns the disagreements"""
+def run_batch(ctx, cases, shrink=True, model=True, tag=None):
+    """implementation + predicate on every case, then (model=True) the model; returns the disagreements.  model=False:
+    predicate-only families (class variants, tuple / str()-colliding labels, large networks): the property's own predicate
+    with networkx is evaluated on the implementation's answer, nothing is sent to the Lean driver"""
     results = []
     for c in cases:
-        check_size(c)
+        if model:
+            check_size(c)
         r, nodes, edges = impl(c)
+        if tag and r["out"] != "skipped":
+            ctx.stats[f"predicate-only:{tag}"] += 1
         if r["out"] != "skipped":
             ctx.evaluations += 1
             ctx.stats["fn:" + c["f"] + (":directed" if "dinet" in c else "")] += 1
@@ -785,7 +809,10 @@ def run_batch(ctx, cases, shrink=True):
         if r["out"] == "skipped":
             ctx.stats["skipped-after-no-answer:" + c["f"]] += 1
         results.append((r, bool(fails) or r["out"] == "skipped"))
-        ctx.sample({"request": c, "impl": {k: v for k, v in r.items() if k != "msg"}}, cap=3)
+        if model:
+            ctx.sample({"request": c, "impl": {k: v for k, v in r.items() if k != "msg"}}, cap=3)
+    if not model:
+        return []
     resps = run_driver(DRIVER, cases, timeout=DRIVER_TIMEOUT)
     dis = []
     for c, (r, failed), m in zip(cases, results, resps):
@@ -817,6 +844,402 @@ def run_batch(ctx, cases, shrink=True):
     return dis
 
 
+# ----------------------------------------------------------------------------- predicate-only families (review 2)
+# None of the cases below is sent to the Lean driver: they are judged by the property's own predicate (networkx on graphs
+# built from the member lists) alone.
+
+BIG = 2 ** 53          # integers above it are not exactly representable as floats: BIG+1 and BIG+2 collide under float()
+
+# label pools whose members collide under str() / repr-ish formatting (1 / "1"), tuple labels, integers above 2**53
+X_LABELS = [
+    lambda k: ([1, "1", 0, "0", 2, "2", "x", 3, "3"])[:k],
+    lambda k: (["1", 1, "0", 0, "01", 10, "10", "1 ", " 1"])[:k],
+    lambda k: ([(0, 0), (0, 1), (1, 0), (1,), (1, 1), ("a", 0), (0,), (0, 0, 0), (2, 1)])[:k],
+    lambda k: ([(0, 1), 0, 1, "0", (1, 0), "(0, 1)", (0,), 2, "2"])[:k],
+    lambda k: [BIG + 1 + i for i in range(k)],
+    lambda k: ([BIG + 1, 1, BIG + 2, 0, -BIG - 1, BIG, 2 ** 64, 2 ** 64 + 1, 2])[:k],
+]
+X_EDGE_IDS = [
+    lambda m: ([1, "1", 0, "0", 2, "2", 3, "3", 4, "4", 5, "5"])[:m],
+    lambda m: ([(0, 1), (1, 0), (0,), (1,), (0, 0), (2, 1), ("e", 0), (1, 1), (3,), (4,), (5,), (6,)])[:m],
+    lambda m: ([(0, 1), 0, "0", 1, "(0, 1)", (1,), "1", 2, (2,), "2", 3, (3,)])[:m],
+    lambda m: [BIG + 1 + i for i in range(m)][::-1],
+]
+
+
+def relabelled(rng, nodes, edges):
+    """the same structure with node labels / edge IDs drawn from the X pools (insertion orders shuffled)"""
+    k, m = len(nodes), len(edges)
+    lab = rng.choice(X_LABELS)(9)
+    eid = rng.choice(X_EDGE_IDS)(12)
+    if k > len(lab) or m > len(eid):
+        return None
+    lab, eid = rng.sample(lab, k), rng.sample(eid, m)
+    pi = dict(zip(nodes, lab))
+    out_nodes = [pi[n] for n in nodes]
+    rng.shuffle(out_nodes)
+    return out_nodes, [(eid[i], [pi[x] for x in ms]) for i, (_, ms) in enumerate(edges)]
+
+
+def xlabel_cases(rng, n):
+    cases = []
+    for _ in range(n):
+        got = relabelled(rng, *gen_any(rng))
+        if got:
+            cases += requests_for(got[0], got[1], rng)
+    return cases
+
+
+def class_cases(rng, n):
+    """SimplicialComplex instances (built with add_simplex from generated member lists of size <= 4; the predicate reads the
+    instance's own nodes / edges.members()) and instances of a trivial subclass of Hypergraph, through every request"""
+    cases = []
+    for i in range(n):
+        if i % 2:
+            nodes, edges = gen_any(rng)
+            cls = "MyH"
+        else:
+            nodes, edges = fn.gen_hypergraph(rng, max_nodes=6, max_edges=3, max_size=4) if rng.random() < 0.6 else gen_path(rng)
+            edges = [(e, ms[:4]) for e, ms in edges]
+            cls = "SimplicialComplex"
+            if rng.random() < 0.3:
+                got = relabelled(rng, nodes, edges)
+                nodes, edges = got if got else (nodes, edges)
+        reqs = requests_for(nodes, edges, rng)
+        if cls == "SimplicialComplex":
+            S = build_case(dict(reqs[0], cls=cls))[2]
+            real = list(S.edges)
+            for r in reqs:                       # a complex names its own faces: no empty hyperedges to build
+                r.pop("empty_via", None)
+        for r in reqs:
+            r["cls"] = cls
+        cases += reqs
+    return cases
+
+
+def gen_large(rng, i):
+    """REGIME family: >= 70 nodes, or >= 130 parallel hyperedges between one pair, always with integer labels above 2**53
+    among the nodes (and as edge IDs)"""
+    kind = i % 3
+    if kind == 0:       # long chain: overlapping edges of size 2-3, repeated edges, a few gaps (several components), distances up to ~60
+        k = rng.randint(70, 90)
+        lab = rng.sample(range(3 * k), k - 3) + [BIG + 1, BIG + 2, 2 ** 64 + 1]
+        rng.shuffle(lab)
+        edges, j = [], 0
+        while j < k - 1:
+            sz = rng.randint(2, 3)
+            edges.append(lab[j:j + sz])
+            if rng.random() < 0.3:
+                edges.append(lab[j:j + 2])               # two nodes sharing two edges
+            j += rng.randint(1, sz - 1) if sz > 2 else 1
+            if rng.random() < 0.03:
+                j += 1
+        edges.append(lab[0:3]); edges.append(lab[0:2])
+    elif kind == 1:     # >= 130 parallel edges between one pair, plus a few other edges
+        k = rng.randint(6, 10)
+        lab = rng.sample(range(40), k - 2) + [BIG + 1, BIG + 2]
+        rng.shuffle(lab)
+        a, b = rng.sample(lab, 2)
+        edges = [[a, b] if rng.random() < 0.5 else [b, a] for _ in range(rng.randint(130, 140))]
+        edges += [rng.sample(lab, rng.randint(1, 4)) for _ in range(rng.randint(2, 6))]
+        if rng.random() < 0.5:
+            edges.append([a, b, rng.choice([x for x in lab if x not in (a, b)])])
+    else:               # sparse random hypergraph on 70-100 nodes
+        k = rng.randint(70, 100)
+        lab = ["v%d" % j for j in range(k - 2)] + [BIG + 1, BIG + 2] if rng.random() < 0.5 else rng.sample(range(BIG, BIG + 500), k)
+        rng.shuffle(lab)
+        edges = [rng.sample(lab, rng.choice([1, 2, 2, 2, 3, 3, 4, 5])) for _ in range(rng.randint(40, 70))]
+    rng.shuffle(edges)
+    m = len(edges)
+    eid = rng.choice([lambda: list(range(m)), lambda: [BIG + 1 + j for j in range(m)][::-1], lambda: ["e%d" % j for j in range(m)]])()
+    return lab, [(eid[j], ms) for j, ms in enumerate(edges)]
+
+
+def large_requests(rng, nodes, edges, i):
+    """only the cheap functions on a large network"""
+    net = fn.enc_net(nodes, edges)
+    reqs = [{"f": f} for f in ("components", "is_connected", "number_cc", "largest_cc", "clustering", "to_graph")]
+    reqs.append({"f": "to_bipartite_graph", "index": True})
+    for n in rng.sample(list(nodes), 3) + [x for x in nodes if isinstance(x, int) and x > BIG][:1]:
+        reqs.append({"f": "sssp", "src": enc_id(n)})
+        reqs.append({"f": "node_cc", "n": enc_id(n)})
+    if i % 3 == 0:
+        reqs.append({"f": "spl"})
+    reqs.append({"f": "to_line_graph", "s": 1, "weights": None})
+    reqs.append({"f": "to_line_graph", "s": 2, "weights": rng.choice(["absolute", "normalized"])})
+    reqs.append({"f": "to_encapsulation_dag", "subset_types": rng.choice(SUBSETS)})
+    for r in reqs:
+        r["net"] = net
+        r["large"] = True
+    return reqs
+
+
+# ---- held objects: state across calls
+
+EDIT_KINDS = ("swap-edge", "swap-member", "add-edge", "remove-node", "remove-edge", "add-node-to-edge")
+
+
+def gen_edit(rng, H, kind):
+    """one edit of the live network as a list of primitive operations [[method, args…]…] (JSON-able), or None.
+    swap-edge / swap-member keep the number of nodes and the number of edges."""
+    nodes, eids = list(H.nodes), list(H.edges)
+    if kind == "swap-edge":
+        if not eids or len(nodes) < 2:
+            return None
+        e = rng.choice(eids)
+        old = set(H.edges.members(e))
+        for _ in range(20):
+            new = rng.sample(nodes, rng.randint(1, min(4, len(nodes))))
+            if set(new) != old:
+                break
+        else:
+            return None
+        # removing e must not delete a node (remove_edge never does); the new edge uses existing nodes only
+        return [["remove_edge", enc_id(e)], ["add_edge", [enc_id(x) for x in new], enc_id(fresh_edge_id(set(eids), rng))]]
+    if kind == "swap-member":
+        cand = [(e, n) for e in eids for n in nodes if n not in H.edges.members(e) and len(H.edges.members(e)) >= 1]
+        if not cand:
+            return None
+        e, n = rng.choice(cand)
+        out = rng.choice(sorted(H.edges.members(e), key=repr))
+        return [["add_node_to_edge", enc_id(e), enc_id(n)], ["remove_node_from_edge", enc_id(e), enc_id(out)]]
+    if kind == "add-edge":
+        pool = nodes + ["new-node"] if "new-node" not in nodes and rng.random() < 0.3 else nodes
+        if not pool:
+            return None
+        return [["add_edge", [enc_id(x) for x in rng.sample(pool, rng.randint(1, min(4, len(pool))))], enc_id(fresh_edge_id(set(eids), rng))]]
+    if kind == "remove-node":
+        return [["remove_node", enc_id(rng.choice(nodes))]] if nodes else None
+    if kind == "remove-edge":
+        return [["remove_edge", enc_id(rng.choice(eids))]] if eids else None
+    if kind == "add-node-to-edge":
+        cand = [(e, n) for e in eids for n in nodes if n not in H.edges.members(e)]
+        if not cand:
+            return None
+        e, n = rng.choice(cand)
+        return [["add_node_to_edge", enc_id(e), enc_id(n)]]
+    raise ValueError(kind)
+
+
+def apply_edit(H, ops):
+    for op in ops:
+        m, args = op[0], op[1:]
+        if m == "add_edge":
+            H.add_edge([dec_id(x) for x in args[0]], idx=dec_id(args[1]))
+        elif m == "add_simplex":
+            H.add_simplex([dec_id(x) for x in args[0]])
+        elif m == "remove_simplex":          # by members: a complex names its own faces
+            H.remove_simplex_id(next(e for e in H.edges if set(H.edges.members(e)) == {dec_id(x) for x in args[0]}))
+        else:
+            getattr(H, m)(*[dec_id(a) for a in args])
+
+
+def snapshot(H):
+    """the live network as plain data, read through its own views"""
+    return list(H.nodes), [(e, list(H.edges.members(e))) for e in H.edges]
+
+
+def call_on(c, H):
+    """call_impl on a given live object under the CPU guard; exceptions are values"""
+    with warnings.catch_warnings():
+        warnings.simplefilter("ignore")
+        try:
+            return {"out": "ok", "v": _timed(lambda: call_impl(c, H), 5 * CALL_CPU_S)}
+        except NoAnswer:
+            return {"out": "err:no-answer", "msg": "no answer within the CPU budget"}
+        except Infra:
+            raise
+        except Exception as ex:  # noqa
+            return {"out": "err:" + type(ex).__name__, "msg": str(ex)[:160]}
+
+
+def loose(r):
+    """result with the parts that may legitimately depend on the history of an object removed (iteration orders)"""
+    if r.get("out") != "ok":
+        return {"out": r.get("out")}
+    v = r["v"]
+    if isinstance(v, dict):
+        v = {k: x for k, x in v.items() if k != "order"}
+    elif isinstance(v, list):
+        v = sorted(v, key=lambda x: json.dumps(x, sort_keys=True, default=repr))
+    return {"out": "ok", "v": v}
+
+
+def held_eval(h, only=None):
+    """h = {"net", "cls"?, "steps": [{"edit": ops | None, "calls": [request without net]}]}: ONE live object; all calls of a
+    step are made on it in order, then the next edit is applied to the same object.  Every answer is judged (a) by the C14
+    predicate on the object's CURRENT structure (networkx) and (b) against the same call on a freshly built network with
+    that structure.  Returns [(step, call index, request, failure_class, detail)]; only=(step, index) evaluates the
+    verdict of that one call (all calls are still made)."""
+    base = {"net": h["net"], "f": "components"}
+    if h.get("cls"):
+        base["cls"] = h["cls"]
+    _, _, H = build_case(base)
+    out = []
+    for si, step in enumerate(h["steps"]):
+        if step.get("edit"):
+            try:
+                with warnings.catch_warnings():
+                    warnings.simplefilter("ignore")
+                    apply_edit(H, step["edit"])
+            except Exception:  # noqa  (an edit the library refuses: the sequence ends here, nothing is claimed)
+                return out
+        nodes, edges = snapshot(H)
+        cur = fn.enc_net(nodes, edges)
+        for ci, call in enumerate(step["calls"]):
+            c = dict(call, net=cur)
+            r = call_on(c, H)
+            if only is not None and only != (si, ci):
+                continue
+            fr = dict(c)
+            if h.get("cls") == "MyH":
+                fr["cls"] = "MyH"
+            rf, fnodes, fedges = impl(fr, force=True)          # a fresh Hypergraph with the structure the object has now
+            fails = pred(c, r, nodes, edges)
+            # (a live SimplicialComplex is judged by the predicate alone: a fresh Hypergraph is not "the same call")
+            if h.get("cls") != "SimplicialComplex" and loose(r) != loose(rf) and not pred(fr, rf, fnodes, fedges):
+                cls = "stale-after-edit" if any(s.get("edit") for s in h["steps"][:si + 1]) else "depends-on-earlier-call"
+                what = fails[0][1] if fails else f"held object {json.dumps(loose(r), default=repr)[:200]} vs fresh {json.dumps(loose(rf), default=repr)[:200]}"
+                out.append((si, ci, c, cls, f"{SITE[c['f']]} on the live object after {'the edit ' + json.dumps(step.get('edit')) if step.get('edit') else 'earlier calls'} "
+                            f"differs from the same call on a freshly built equal network: {what}"[:600]))
+            else:
+                for k, d in fails:
+                    out.append((si, ci, c, k, d))
+    return out
+
+
+def held_case(rng, i):
+    cls = "SimplicialComplex" if i % 6 == 5 else ("MyH" if i % 6 == 2 else None)
+    if cls == "SimplicialComplex":
+        nodes, edges = fn.gen_hypergraph(rng, max_nodes=6, max_edges=3, max_size=3)
+    elif i % 4 == 0:
+        got = relabelled(rng, *gen_plain(rng))
+        nodes, edges = got if got else gen_plain(rng)
+    else:
+        nodes, edges = gen_plain(rng)
+    h = {"net": fn.enc_net(nodes, edges), "steps": []}
+    if cls:
+        h["cls"] = cls
+    _, _, H = build_case({"net": h["net"], "cls": cls, "f": "components"})
+
+    def calls():
+        n, e = snapshot(H)
+        rq = requests_for(n, e, rng)
+        rng.shuffle(rq)
+        return [{k: v for k, v in r.items() if k not in ("net", "empty_via")} for r in rq]
+    h["steps"].append({"edit": None, "calls": calls()})
+    kinds = [rng.choice(EDIT_KINDS[:2]), rng.choice(EDIT_KINDS[2:]), rng.choice(EDIT_KINDS)]
+    rng.shuffle(kinds)
+    for kind in kinds:
+        if cls == "SimplicialComplex":
+            n, e = snapshot(H)
+            mx = [list(H.edges.members(x)) for x in H.edges.maximal()]
+            if not mx or len(n) < 2:
+                break
+            ops = [["remove_simplex", [enc_id(x) for x in rng.choice(mx)]]] if rng.random() < 0.5 else []
+            ops.append(["add_simplex", [enc_id(x) for x in rng.sample(n, rng.randint(2, min(3, len(n))))]])
+        else:
+            ops = gen_edit(rng, H, kind)
+        if not ops:
+            continue
+        try:
+            with warnings.catch_warnings():
+                warnings.simplefilter("ignore")
+                apply_edit(H, ops)
+        except Exception:  # noqa
+            break
+        h["steps"].append({"edit": ops, "calls": calls()})
+    return h
+
+
+def held_python(h, si, ci):
+    lines = [f"net={json.dumps(h['net'])}  # class {h.get('cls') or 'Hypergraph'}; build it, then on the SAME object:"]
+    for k, step in enumerate(h["steps"][:si + 1]):
+        if step.get("edit"):
+            lines.append("edit " + json.dumps(step["edit"]))
+        cs = step["calls"] if k < si else step["calls"][:ci + 1]
+        lines.append("calls " + "; ".join(SITE[c["f"]] + json.dumps({a: b for a, b in c.items() if a != "f"}) for c in cs))
+    return " | ".join(lines)
+
+
+def shrink_held(h, si, ci, cls):
+    """keep only what is needed: drop later steps / later calls, then earlier calls one at a time, while the same call
+    still fails with the same class"""
+    h = copy.deepcopy(h)
+    h["steps"] = h["steps"][:si + 1]
+    h["steps"][si]["calls"] = h["steps"][si]["calls"][:ci + 1]
+    target = h["steps"][si]["calls"][ci]
+
+    def fails(cand):
+        try:
+            tsi = len(cand["steps"]) - 1
+            tci = len(cand["steps"][tsi]["calls"]) - 1
+            return any(k == cls for _, _, _, k, _ in held_eval(cand, only=(tsi, tci)))
+        except Exception:  # noqa
+            return False
+    budget = 60
+    # same-function calls are the likely carriers of the state: first try to drop everything else at once
+    cand = copy.deepcopy(h)
+    for k, step in enumerate(cand["steps"]):
+        keep = [c for c in step["calls"] if c["f"] == target["f"]]
+        step["calls"] = keep if k < si else (keep[:-1] + [target] if keep and keep[-1] == target else keep + [target])
+    if fails(cand):
+        h = cand
+    for k in range(len(h["steps"])):
+        j = 0
+        while j < len(h["steps"][k]["calls"]) - (1 if k == len(h["steps"]) - 1 else 0) and budget > 0:
+            cand = copy.deepcopy(h)
+            del cand["steps"][k]["calls"][j]
+            budget -= 1
+            if fails(cand):
+                h = cand
+            else:
+                j += 1
+    # drop whole intermediate steps whose edit is not needed
+    k = 1
+    while k < len(h["steps"]) - 1 and budget > 0:
+        cand = copy.deepcopy(h)
+        del cand["steps"][k]
+        budget -= 1
+        if fails(cand):
+            h = cand
+        else:
+            k += 1
+    return h
+
+
+def run_held(ctx, n):
+    rng = ctx.rng
+    for i in range(n):
+        h = held_case(rng, i)
+        res = held_eval(h)
+        ncalls = sum(len(s["calls"]) for s in h["steps"])
+        ctx.evaluations += ncalls
+        ctx.stats["held-object:sequences"] += 1
+        ctx.stats["held-object:calls"] += ncalls
+        ctx.stats["held-object:edits"] += sum(1 for s in h["steps"] if s.get("edit"))
+        for s in h["steps"]:
+            for op in (s.get("edit") or []):
+                ctx.stats["held-object:op:" + op[0]] += 1
+        ctx.nontrivial.add(jhash(h))
+        seen = set()
+        for si, ci, c, cls, detail in res:
+            site = SITE[c["f"]]
+            if (site, cls) in seen:
+                continue
+            seen.add((site, cls))
+            known = any(v["site"] == site and v["failure_class"] == cls for v in ctx.violations)
+            small, d2 = h, detail
+            if not known:
+                cand = shrink_held(h, si, ci, cls)
+                tsi = len(cand["steps"]) - 1
+                tci = len(cand["steps"][tsi]["calls"]) - 1
+                got = [d for _, _, _, k, d in held_eval(cand, only=(tsi, tci)) if k == cls]
+                if got:
+                    small, d2, si, ci = cand, got[0], tsi, tci
+            ctx.violation(site, cls, {"f": c["f"], "held": small, "at": [si, ci], "python": held_python(small, si, ci)}, detail=d2)
+
+
 def load_corpus():
     out = []
     for p in sorted(glob.glob(os.path.join(VERIF, "corpus", "C14", "*.json"))):
@@ -833,6 +1256,21 @@ def load_corpus():
 def replay(ctx, path):
     j = json.load(open(path))
     c = {k: v for k, v in j.get("case", j).items() if k != "python"}
+    if "held" in c:                              # a held-object sequence: predicate-only
+        res = held_eval(c["held"], only=tuple(c["at"]))
+        print(held_python(c["held"], *c["at"]))
+        for _, _, rq, cls, detail in res:
+            print(f"STILL FAILS: {SITE[rq['f']]} {cls}: {detail}")
+        if not res:
+            print("the call on the live object agrees with the predicate and with a fresh network")
+        return 1 if res else 0
+    if c.get("cls") or c.get("large") or c.get("predicate_only"):
+        r, nodes, edges = impl(c, force=True)
+        fails = pred(c, r, nodes, edges)
+        print(json.dumps({"request": c, "impl": r}, default=repr)[:2000])
+        for cls, detail in fails:
+            print(f"STILL FAILS: {SITE[c['f']]} {cls}: {detail}"[:700])
+        return 1 if fails else 0
     ok = build_and_audit(ctx, "XgiModel.Props.C14", ["XgiModel.C14.Drive"])
     dis = run_batch(ctx, [c], shrink=False)
     r, _, _ = impl(c)
@@ -852,9 +1290,18 @@ def run(ctx):
                 "{None, absolute, normalized} (plus s in {0,-1} x weights on ~30 % and s=4), to_bipartite_graph with index=True and "
                 "with the default index=False, to_encapsulation_dag for all/immediate/empirical, missing node / invalid option "
                 "requests; DiHypergraphs (<= 6 nodes, <= 5 edges, overlapping / empty tails and heads): to_bipartite_graph with and "
-                "without index; non-trivial = distinct (request, result) on a network with an edge of >= 2 members")
+                "without index; non-trivial = distinct (request, result) on a network with an edge of >= 2 members.  PREDICATE-ONLY "
+                "families (networkx predicate on the implementation, nothing sent to the Lean driver): the same generators relabelled into "
+                "pools with str()-colliding labels (1 / '1'), tuple labels / tuple edge IDs and integers above 2**53; SimplicialComplex "
+                "instances (add_simplex; judged on the instance's own nodes / edges.members()) and instances of a trivial Hypergraph "
+                "subclass; six large networks (70-100 nodes or 130-140 parallel hyperedges, labels above 2**53) with the cheap requests; "
+                "100 held-object sequences: all requests on ONE live object, up to three edits of that object (count-preserving and "
+                "ordinary), all requests again after each edit, each answer judged by the predicate on the current structure and "
+                "against the same call on a freshly built equal network")
     cases = load_corpus()
     ctx.stats["corpus_cases"] = len(cases)
+    corpus_ponly = [c for c in cases if c.get("cls") or c.get("large") or c.get("predicate_only")]     # never sent to the driver
+    cases = [c for c in cases if not (c.get("cls") or c.get("large") or c.get("predicate_only"))]
     n_h = ctx.n(1000, 12000)
     for _ in range(n_h):
         nodes, edges = gen_any(rng)
@@ -873,6 +1320,20 @@ def run(ctx):
     dis = []
     for i in range(0, len(cases), 40000):
         dis += run_batch(ctx, cases[i:i + 40000])
+    # ---- predicate-only families (never sent to the Lean driver)
+    run_batch(ctx, corpus_ponly, model=False, tag="corpus")
+    xl = xlabel_cases(rng, ctx.n(120, 1500))
+    for c in xl:
+        c["predicate_only"] = True
+    run_batch(ctx, xl, model=False, tag="colliding/tuple/big-int labels")
+    run_batch(ctx, class_cases(rng, ctx.n(120, 1500)), model=False, tag="SimplicialComplex/subclass")
+    for i in range(ctx.n(6, 30)):
+        nodes, edges = gen_large(rng, i)
+        ctx.stats["large_networks"] += 1
+        ctx.stats["large_networks:max_nodes"] = max(ctx.stats["large_networks:max_nodes"], len(nodes))
+        ctx.stats["large_networks:max_edges"] = max(ctx.stats["large_networks:max_edges"], len(edges))
+        run_batch(ctx, large_requests(rng, nodes, edges, i), model=False, tag="large")
+    run_held(ctx, ctx.n(100, 1200))
     if not ctx.quick:
         small = []
         count = 0
@@ -909,7 +1370,12 @@ def run(ctx):
 
     fn.conclude(ctx, ok, dis, search)
     ctx.assumptions = [
-        "node and edge IDs restricted to int / str (bool, float IDs outside the model)",
+        "model and correspondence: node and edge IDs are int / str; tuple IDs, str()-colliding pools, integers above 2**53, SimplicialComplex / "
+        "subclass instances, networks above the size guard and held-object sequences are generated but judged by the networkx predicate alone "
+        "(never sent to the driver); bool / float IDs are not generated",
+        "a SimplicialComplex is judged as the hypergraph of its own faces (nodes and edges.members() as the instance reports them)",
+        "held-object sequences: the reference structure after an edit is read from the object's own views (H.nodes, H.edges.members()); an edit the "
+        "library refuses ends the sequence",
         "empty hyperedges are generated and inside model and theorems: vertices of the line graph / bipartite graph / DAG, never "
         "linked for s >= 1, invisible to components / distances / projection / clustering; the DAG definition used by the predicate "
         "is 'b is a NON-EMPTY strict subset of a' (what the code does: candidates are found through shared nodes)",
